@@ -128,6 +128,12 @@ def run(ck, fx, cg, tier):
         c14_templates.run(ck, fx, cg, tier)
     except ImportError:
         ck.note("R14.dispatch/R14.arity/R14.sugar: template rules not built yet")
+    # identity: every evaluation of an object / array expression yields a NEW heap object (two literals, or one literal
+    # evaluated twice, never alias) — C05's rows for the Object and Array instructions (…, alloc, push the fresh
+    # reference, ip_bump on every successful path), evaluated as one presupposition
+    from . import shared as _shi
+    _shi.presuppose(ck, fx, cg, "C05", lambda o: o["rule"] == "R5.op" and o["key"].split("|")[0] in ("eval_object", "eval_array"), "R14.reference",
+                    "every object / array creation allocates a fresh heap object and yields the reference to it", floor=2)
     # `a[i]` / `a[i] <- v` / operators are ordinary calls every time they are evaluated: the compiler must not treat an
     # index or operator expression as a "plain read" that may be evaluated once for a whole array (C13's rule on the
     # single-evaluation initializer kinds)
